@@ -43,6 +43,10 @@ func init() {
 	registerReplay("c03-list", checkC03List)
 }
 
+// shallowProbe: the exhaustive-edits unit enumerates ~600 strings per expression and leaves the
+// repeated-call probes to the other units (set only by TestC03_Edits, which runs in its own process)
+var shallowProbe bool
+
 // probePanic passes s to every entry point in every argument position and reports the first panic.
 func probePanic(s string) (where, msg string) {
 	if r := Validate([]string{s}); r.Panic != "" {
@@ -57,7 +61,7 @@ func probePanic(s string) (where, msg string) {
 	if r := Satisfies("MIT", []string{s}); r.Panic != "" {
 		return "Satisfies(allowed entry)", r.Panic
 	}
-	if len(s) <= 256 {
+	if len(s) <= 256 && !shallowProbe {
 		// once more, now that the library has seen the string (and in a two-entry list)
 		if r := Satisfies("MIT", []string{"MIT", s}); r.Panic != "" {
 			return "Satisfies(allowed entry, first time in a two-entry list)", r.Panic
@@ -156,6 +160,8 @@ func TestC03_Edits(t *testing.T) {
 	defer rec.Finish(t)
 	tb := Tbl()
 	reps := alphabetReps()
+	shallowProbe = true
+	defer func() { shallowProbe = false }()
 	rec.Rapid(t, func(rt *rapid.T) {
 		excPool := tb.DrawExcPool(rt)
 		pool := tb.DrawPool(rt, excPool)
